@@ -77,6 +77,15 @@ class Prop(SeqProp):
     def gen(self, rng, n, tier):
         n_mp = self.quick_mp if tier == "quick" else (self.thorough_mp if tier == "thorough" else 0)
         for k in range(n):
+            if rng.random() < 0.05:
+                # a pool whose FIRST file does not exist yet: the enter fails (nothing was opened), the file appears, the same
+                # pool object is entered again — once or several times (Model/FilePoolFail.lean)
+                m = rng.randint(1, 4)
+                ops = [("fp_new " + " ".join(map(str, range(m)))), "fp_missing 0", "fp_enter", "fp_create 0"]
+                for _ in range(rng.randint(1, 3)):
+                    ops += ["fp_enter", rng.choice(["fp_exit", "fp_raise"])]
+                yield Case(ops, {"mp": False, "modes": "r", "plain_list": True})
+                continue
             if rng.random() < 0.15:
                 m = rng.randint(0, 5)
                 # the with-body may use the handles as it likes: write / read them, close some of them itself
@@ -329,10 +338,20 @@ class Prop(SeqProp):
                         paths = [os.path.join(d, f"f{k}") for k in w[1:]]
                         for p in paths:
                             open(p, "w").write("x\n")
-                        fp = FilePool(iter(paths) if len(paths) % 2 else paths, mode)
+                        fp = FilePool(paths if case.meta.get("plain_list") else (iter(paths) if len(paths) % 2 else paths), mode)
                         out.append("ok")
+                    elif w[0] == "fp_missing":
+                        for k in w[1:]:
+                            os.remove(paths[int(k)])
+                        out.append("ok")
+                    elif w[0] == "fp_create":
+                        open(paths[int(w[1])], "w").write("x\n"); out.append("ok")
                     elif w[0] == "fp_enter":
-                        r = fp.__enter__()
+                        try:
+                            r = fp.__enter__()
+                        except FileNotFoundError:
+                            out.append("err FileNotFoundError handles:" + ("none" if fp.file_handles is None else "some"))
+                            continue
                         handles = [fp[p] for p in paths]
                         ok = r is fp and len(fp) == len(paths) and list(fp) == paths
                         out.append("open:" + ",".join("1" if not h.closed else "0" for h in handles) + ("" if ok else " mapping-mismatch"))
@@ -498,10 +517,21 @@ class Prop(SeqProp):
     def oracle(self, case, impl_out):
         if case.ops and case.ops[0].startswith("fp_"):
             n = len(case.ops[0].split()) - 1
-            exp = ["ok", "open:" + ",".join(["1"] * n), "closed:" + ",".join(["1"] * n) + " handles:none"]
-            for i, (e, l) in enumerate(zip(exp, impl_out)):
+            missing = set()
+            for i, (op, l) in enumerate(zip(case.ops, impl_out)):
+                w = op.split()
+                if w[0] == "fp_missing":
+                    missing = set(w[1:]); e = "ok"
+                elif w[0] == "fp_create":
+                    missing.discard(w[1]); e = "ok"
+                elif w[0] == "fp_new":
+                    e = "ok"
+                elif w[0] == "fp_enter":
+                    e = "err FileNotFoundError handles:none" if missing else "open:" + ",".join(["1"] * n)
+                else:
+                    e = "closed:" + ",".join(["1"] * n) + " handles:none"
                 if e != l:
-                    return f"op {i} `{case.ops[i]}`: {l!r}, expected {e!r}"
+                    return f"op {i} `{op}`: {l!r}, expected {e!r}"
             return None
         for i, line in enumerate(impl_out):
             if line.startswith("pools-not-independent "):
